@@ -225,6 +225,7 @@ func (p *Prog) indexFns() {
 		}
 	}
 	p.aliasRegistryFns()
+	p.canonReceivers()
 	sort.Slice(p.Fns, func(i, j int) bool { return p.Fns[i].Name < p.Fns[j].Name })
 }
 
